@@ -227,6 +227,10 @@ def conj(c):
 # ------------------------------------------------------------------ R-NEGATE
 
 def check_negate(ctx, prog):
+    """R-NEGATE: the integer-to-text helpers never negate the minimum value of a signed type.  Every unary minus (or 0 - x)
+    applied to a signed operand that reads the argument must be unreachable for x == TMIN (guards evaluated with x bound to
+    the extreme values); a magnitude taken in unsigned arithmetic has no such obligation."""
+    import bounded
     n = 0
     for name in ('asl::myitoa', 'asl::myltoa'):
         fs = prog.fn(name)
@@ -234,21 +238,41 @@ def check_negate(ctx, prog):
             raise AnalysisBroken('%s not found' % name)
         f = fs[0]
         ctx.analysed(f)
+        n += 1
         p = f['params'][0]
-        bits = T(f, p['t']).get('bits')
-        tmin = -2 ** (bits - 1)
-        negs = [e for e in fn_exprs(f) if e.get('k') == 'bin' and e.get('op') == '=' and strip_lv(e['x']).get('id') == p['id'] and strip(e['y']).get('k') == 'un' and strip(e['y']).get('op') == '-'
-                and strip(strip(e['y'])['e']).get('id') == p['id']]
+        bits_ = T(f, p['t']).get('bits')
+        tmin = -2 ** (bits_ - 1)
         g = q.Guarded(f)
+        negs = []
+        for e in fn_exprs(f):
+            operand = None
+            if e.get('k') == 'un' and e.get('op') == '-':
+                operand = e['e']
+            elif e.get('k') == 'bin' and e.get('op') == '-' and const_val(e['x']) == 0:
+                operand = e['y']
+            if operand is None:
+                continue
+            te = T(f, e.get('t'))
+            if not te.get('int') or te.get('sg') is False:
+                continue            # unsigned arithmetic wraps, it cannot overflow
+            if any(w.get('k') == 'var' and w.get('id') == p['id'] for w in walk_expr(operand)):
+                negs.append(e)
+        role = name.split('::')[-1] + ':negation excludes the minimum value'
+        if not negs:
+            ctx.ok('R-NEGATE', f['pq'], role, fwhere(f), 'no signed negation of the argument (magnitude taken in unsigned arithmetic)')
+            continue
         for e in negs:
-            n += 1
-            guarded = False
-            for c, pol, kind in g.of(e):
-                cc = strip(c)
-                if kind == 'after' and pol is False and cc.get('k') == 'bin' and cc.get('op') == '==' and strip(cc['x']).get('id') == p['id'] and const_val(cc['y']) == tmin:
-                    guarded = True
-            ctx.check(guarded, 'R-NEGATE', f['pq'], name.split('::')[-1] + ':negation excludes the minimum value', fwhere(f, e['l']),
-                      'x = -x is reached only when x != %d' % tmin, '%s negates its argument without excluding %d first (undefined, text of the minimum value is garbage)' % (name, tmin))
+            wr = bounded.writes_between(g, f, {p['id']}, g.of(e), e)
+            if wr is not None:
+                ctx.undecided('R-NEGATE', f['pq'], role, fwhere(f, e['l']), 'the argument is modified between its guard and the negation')
+                continue
+            st, info = bounded.decide(prog, f, g.of(e), lambda ev: ev.env[p['id']] != tmin, {p['id']: p['n']}, {}, [tmin, tmin + 1, -1, 0, 1, -tmin - 1], G=g)
+            ctx.evaluations += 6
+            if st == 'undecided':
+                ctx.undecided('R-NEGATE', f['pq'], role, fwhere(f, e['l']), info)
+            else:
+                ctx.check(st == 'holds', 'R-NEGATE', f['pq'], role, fwhere(f, e['l']), '`%s` is reached only when x != %d' % (pe(e), tmin),
+                          '%s negates its argument without excluding %d first (undefined, text of the minimum value is garbage)' % (name, tmin))
     ctx.floor('R-NEGATE', n, 2)
 
 
